@@ -332,9 +332,120 @@ def check_main_order(chk):
         chk.ok()
 
 
+SELECTION = {'opt': ['SolidityMath', 'Sstore', 'CacheArrayLength'], 'vul': ['FloatingPragma', 'DivideBeforeMultiply'], 'qa': ['ConstructorOrder', 'PrivateVarsLeadingUnderscore']}
+
+
+def check_main_selection(chk):
+    """main() from the binary's MIR with the options as a symbolic value: whatever lists Opts::new() returns, exactly the listed
+    patterns are analysed on exactly the files of the configured directory, and the report is written (once) in every case"""
+    from .. import dirlib as dl
+    from ..engine import Int, SetV
+    e = chk.engine('bin')
+    f = e.func('main')
+    names = {c: dict(rl.CATS[c]['table']) for c in rl.CATS}
+    # every category: no pattern / one / two / all of the selection (Choice: the path decides lazily, all 4^3 combinations are covered)
+    def lists(cat):
+        enum = rl.CATS[cat]['enum']
+        sel = SELECTION[cat]
+        return [[], [sel[0]], [sel[1], sel[0]], sel], enum
+    combos = list(itertools.product(range(4), repeat=3))
+    if chk.quick:
+        keep = [c for c in combos if c.count(0) >= 1 or c == (3, 3, 3)]
+        combos = keep
+    for ko, kv, kq in combos:
+        w = World()
+        tree = dl.Tree([('file', 'A.sol', 'a'), ('dir', 'sub', [('file', 'B.sol', 'b')]), ('file', 'notes.txt', 'n')])
+        w.dirs = {k.replace('root', 'proj', 1): [dict(x, path=x['path'].replace('root', 'proj', 1)) for x in v] for k, v in tree.world.dirs.items()}
+        w.files = {k.replace('root', 'proj', 1): dict(v, path=k.replace('root', 'proj', 1)) for k, v in tree.world.files.items()}
+        e.flags['world'] = w
+        e.flags['symbolic_listing'] = False
+        chosen = {}
+        fields = [Str('proj')]
+        for cat, k in (('opt', ko), ('vul', kv), ('qa', kq)):
+            ls, enum = lists(cat)
+            chosen[cat] = ls[k]
+            fields.append(VecV([Adt(enum, v) for v in ls[k]]))
+        opts = Adt('Opts', None, tuple(fields))
+        e.stubs['Opts::new'] = lambda en, a, fr, c, o=opts: o
+        by_contents = {id(v['contents']): v for v in w.files.values() if v['contents'] is not None}
+
+        def per_file(en, a, fr, callee):
+            rec = by_contents.get(id(en.load(a[0])))
+            if rec is None:
+                raise Unsupported('per-file analysis on a text that is not a file of the tree')
+            pat = en.force(a[2]).variant
+            en.extra.setdefault('analysed', []).append((rec['path'], pat))
+            return SetV((Int(z3.BitVec('line_%s_%s' % (rec['tag'], pat), 32), 'i32'),), 'btree')
+        for cat in dl.CATS:
+            e.stubs[dl.CATS[cat]['per_file']] = per_file
+        label = 'optimizations=%r vulnerabilities=%r qa=%r' % (chosen['opt'], chosen['vul'], chosen['qa'])
+        try:
+            paths = e.explore(lambda en: en.call_mir(f, []), max_paths=2000)
+        except Unsupported as u:
+            chk.undecide('main(): %s' % u); continue
+        eligible = sorted(k for k, v in w.files.items() if v['name'].v.endswith('.sol'))
+        want = sorted((p_, v) for p_ in eligible for cat in chosen for v in chosen[cat])
+        for r in paths:
+            if r.outcome == 'unsupported':
+                chk.undecide('main() [%s]: %s' % (label, r.value)); continue
+            got = sorted(r.extra.get('analysed', [])) if r.outcome == 'return' else None
+            writes = r.extra.get('writes', [])
+            problems = []
+            if r.outcome != 'return':
+                problems.append('main() ends with %s: %s' % (r.outcome, getattr(r.value, 'msg', r.value)))
+            else:
+                if got != want:
+                    problems.append('analysed (file, pattern) pairs %r, configured %r' % (got, want))
+                if want and len(writes) != 1:          # (with nothing selected, whether an empty report is written is not the property's subject)
+                    problems.append('%d report files written' % len(writes))
+            if not problems:
+                chk.ok(); continue
+            confirm_selection(chk, chosen, names, label, problems)
+    chk.sample({'main() selection': '%d combinations of pattern lists per category (none / one / two / three)' % len(combos)})
+
+
+def confirm_selection(chk, chosen, names, label, problems):
+    """the compiled binary with that configuration: a report must exist and list a finding for every listed pattern and for no other"""
+    d = os.path.join(chk.native.dir, 'sel%d' % chk.native.n)
+    chk.native.n += 1
+    os.makedirs(os.path.join(d, 'proj'))
+    SNIP = {'SolidityMath': ('function m(uint256 a) public { a + 1; }', 'solidity_math'), 'Sstore': ('uint256 st; function w() public { st = 1; }', 'sstore'),
+            'CacheArrayLength': ('function c(uint256[] memory q) public { for (uint256 i; i < q.length; ) { } }', 'cache_array_length'),
+            'FloatingPragma': ('', 'floating_pragma'), 'DivideBeforeMultiply': ('function d(uint256 a) public { a / 2 * 3; }', 'divide_before_multiply'),
+            'ConstructorOrder': ('function e() public {} constructor() {}', 'constructor_order'), 'PrivateVarsLeadingUnderscore': ('uint256 private pv;', 'private_vars_leading_underscore')}
+    # one line per snippet so that every pattern has its own line
+    order = list(SNIP)
+    text = 'pragma solidity ^0.8.16;\ncontract Sel {\n' + ''.join('    %s\n' % SNIP[k][0] for k in order) + '}\n'
+    open(os.path.join(d, 'proj', 'Sel.sol'), 'w').write(text)
+    cfg = 'path = "proj"\n' + ''.join('%s = [%s]\n' % (CATS[c][4], ', '.join('"%s"' % names[c][v] for v in chosen[c])) for c in ('opt', 'vul', 'qa'))
+    open(os.path.join(d, 'cfg.toml'), 'w').write(cfg)
+    p = subprocess.run([os.path.join(chk.world.build, 'solstat'), '--toml', 'cfg.toml'], cwd=d, stdout=subprocess.PIPE, stderr=subprocess.PIPE, text=True)
+    chk.validated += 1
+    rp = os.path.join(d, 'solstat_report.md')
+    rep = open(rp).read() if os.path.exists(rp) else None
+    bad = []
+    if p.returncode != 0:
+        bad.append('exit status %d' % p.returncode)
+    if rep is None:
+        if any(chosen.values()):
+            bad.append('no report written')
+    else:
+        line_of = {k: 3 + i for i, k in enumerate(order)}
+        line_of['FloatingPragma'] = 1
+        listed = {int(m.group(1)) for m in re.finditer(r'^- Sel\.sol:(\d+)$', rep, re.M)}
+        for c in chosen:
+            for v in chosen[c]:
+                if line_of[v] not in listed:
+                    bad.append('%s is configured but its finding on line %d is not in the report' % (names[c][v], line_of[v]))
+    if not bad:
+        chk.broken('main() %s: engine says %s; the compiled binary analyses what is configured' % (label, '; '.join(problems)))
+    chk.violation('main:selection', 'solstat --toml with %s: %s' % (label, '; '.join(bad)), {'job': 'solstat', 'config': cfg, 'source': text, 'observed': (rep or '')[:300]})
+
+
 def body(chk):
     chk.bounds = {'names': 'every name of the docs tables / README / Solstat.toml with a SYMBOLIC casing mask (all 2^len casings at once); unknown names: symbolic strings over [a-z0-9_ -], length <= 40',
                   'Opts::new': '--path / --toml / ./contracts present or not (8 combinations), per category the pattern list: empty, one of 3 known names, an unknown name, two names; path strings symbolic',
+                  'main()': 'executed from the binary\'s MIR for 4 pattern lists per category (none / one / two / three patterns; quick: 38 of the 64 combinations) on a tree of two eligible files: analysed pairs = configured pairs, one report',
                   'outside': 'clap\'s and toml\'s own parsing (stubbed by arbitrary values of their result types)'}
     chk.assumptions = ['to_lowercase contract: ASCII letters fold to their lower-case form (validated natively on sampled casings)', 'Z3 string equality for the match on names',
                        'docs tables parsed at run time from /repo']
@@ -343,6 +454,7 @@ def body(chk):
         tables[cat] = check_names(chk, cat)
     check_opts(chk, tables)
     check_main_order(chk)
+    check_main_selection(chk)
 
 
 if __name__ == '__main__':
